@@ -11,15 +11,6 @@ import (
 // Rescale: q_L*phi_out = phi_in - delta, scale/q_L ;  with all ciphertext/key coefficients atoms.
 // Numeric precision of the decoded values is outside (floating-point encoder).
 
-func vSetup() (*vCtx, *Evaluator) {
-	vConfig("algebraic-samplers", "1")
-	c := VerifSetup_Ctx(vIsAlgebraic())
-	c.Kgen.GenSecretKey(c.Sk)
-	rlk := c.Kgen.GenRelinearizationKeyNew(c.Sk)
-	eval := c.Eval.WithKey(rlwe.NewMemEvaluationKeySet(rlk))
-	return c, eval
-}
-
 func vScaleEq(s rlwe.Scale, num, den int64) bool {
 	// s == num/den: exactly in the engine (scales are exact reals there), up to 2^-100 relative natively
 	// (big.Float scales have a finite mantissa)
